@@ -186,7 +186,7 @@ func c08Check(specific *entry, s string) (detail string) {
 }
 
 func propC08(o *propOpts) *propResult {
-	res := newResult("sentences: every golden input not marked !bad_ through its specific entry point and through ParseStatement (equal trees incl. positions), each also with keywords and unquoted identifiers upper-cased and lower-cased where the lower/upper-cased text still lexes to the same token kinds; ';'-joined lists of 1..3 such sentences with and without trailing ';' through ParseStatements/ParseDDLs/ParseDMLs; non-trivial = sentence with >= 4 tokens; distinct by (entry,sentence)")
+	res := newResult("sentences: every golden input not marked !bad_ through its specific entry point and through ParseStatement (equal trees incl. positions), each also with keywords and unquoted identifiers upper-cased and lower-cased where the lower/upper-cased text still lexes to the same token kinds; ';'-joined lists of 1..3 such sentences with and without trailing ';' through ParseStatements/ParseDDLs/ParseDMLs; plus the sentences of the reference grammar G written from the documentation (systematic: every alternative, every optional on/off in minimal and maximal context, list lengths min..min+2, the identifier pool at every identifier position; and seeded random derivations), each through its entry point and ParseStatement with equal trees and with the lexer's tokens compared to the generator's own terminal list, and ';'-lists of them; non-trivial = sentence with >= 4 tokens; distinct by (entry,sentence)")
 	r := &rng{s: o.seed}
 	var stmts, ddls, dmls []string
 	for _, cf := range corpusFiles() {
@@ -245,6 +245,9 @@ func propC08(o *propOpts) *propResult {
 			res.fail("g0:"+st.entry+":"+st.text, st.text, e.name, d)
 		}
 	}
+	// the reference grammar G (grammar.go, grammar_rules.go): systematic and random derivations, coverage counted per non-terminal
+	gStmts, gDDLs, gDMLs := c08Grammar(o, res)
+	gPools := map[string][]string{"ParseStatements": gStmts, "ParseDDLs": gDDLs, "ParseDMLs": gDMLs}
 	nlist := 600
 	if o.tier == "thorough" {
 		nlist = 12000
@@ -256,6 +259,9 @@ func propC08(o *propOpts) *propResult {
 			name, pool = "ParseDDLs", ddls
 		case 2:
 			name, pool = "ParseDMLs", dmls
+		}
+		if gp := gPools[name]; len(gp) > 0 && r.intn(2) == 0 {
+			pool = gp // a list of sentences of G
 		}
 		k := 1 + r.intn(3)
 		var parts []string
